@@ -716,6 +716,9 @@ func (x *Exec) enterLoop(fr *Frame, lp *loop, st *State) {
 		st.heap[n] = h
 	}
 	x.autoInvariants(fr, lp, st)
+	if ls != nil && ls.splitSSA != nil {
+		x.applyLoopSplit(fr, lp, ls, st)
+	}
 	defer func() {
 		if x.panicFn != nil && ls != nil && ls.panicPoint {
 			x.establishPanicPred(st, hdr.Instrs[0].Pos(), fmt.Sprintf("loop%d", lp.ordinal))
@@ -946,4 +949,57 @@ func (x *Exec) loopMayDelete(lp *loop, mt *types.Map) bool {
 	}
 	_, touched := out[dn]
 	return touched
+}
+
+// applyLoopSplit: this run covers the iterations in which the split
+// expression has one particular value at the loop head (all alternatives
+// together, with `other`, cover every value).
+func (x *Exec) applyLoopSplit(fr *Frame, lp *loop, ls *loopSpec, st *State) {
+	ts := x.w.ts
+	alt := ""
+	key := fmt.Sprintf("@loop%d", lp.ordinal)
+	for _, ch := range x.combo {
+		if ch.param == key {
+			alt = ch.alt
+		}
+	}
+	if alt == "" {
+		return
+	}
+	hasOther := false
+	for _, a := range ls.splitAlts {
+		if a == "other" {
+			hasOther = true
+		}
+	}
+	if !hasOther {
+		unsup("loop split without an `other` alternative is not exhaustive")
+	}
+	t := x.evalLoopFn(fr, lp.header, ls, ls.splitFn, ls.splitSSA, st)
+	w := t.sort.bvWidth()
+	if w == 0 {
+		unsup("loop split expression must be an integer")
+	}
+	if alt == "other" {
+		x.splitTerm, x.splitExcluded = t, map[uint64]bool{}
+		for _, a := range ls.splitAlts {
+			if a == "other" {
+				continue
+			}
+			var k uint64
+			fmt.Sscan(a, &k)
+			x.assumeIn(st, ts.Not(ts.Eq(t, ts.BV(k, w))))
+			x.splitExcluded[k] = true
+		}
+		return
+	}
+	var k uint64
+	if _, err := fmt.Sscan(alt, &k); err != nil {
+		unsup("loop split alternative %q is not a number", alt)
+	}
+	x.assumeIn(st, ts.Eq(t, ts.BV(k, w)))
+	if x.pins == nil {
+		x.pins = map[*Term]*Term{}
+	}
+	x.pins[t] = ts.BV(k, w)
 }
